@@ -101,7 +101,7 @@ func parseUint(buf []byte) (u uint64) {
 // parseUint32 parses a []byte of a string representation of a uint32 value and returns the value.
 // If the value is larger than uint32 returns 0.
 func parseUint32(buf []byte) (u uint32) {
-	if i := parseUint(buf); i < math.MaxUint32 {
+	if i := parseUint(buf); i <= math.MaxUint32 {
 		return uint32(i)
 	}
 	return 0
@@ -110,7 +110,7 @@ func parseUint32(buf []byte) (u uint32) {
 // parseUint8 parses a []byte of a string representation of a uint8 value and returns the value.
 // If the value is larger than uint8 returns 0.
 func parseUint8(buf []byte) (u uint8) {
-	if i := parseUint(buf); i < math.MaxUint8 {
+	if i := parseUint(buf); i <= math.MaxUint8 {
 		return uint8(i)
 	}
 	return 0
